@@ -210,6 +210,54 @@ fn cli_leg(ctx: &mut Ctx) {
             }
         }
     }
+    // ---- exact whole-string membership through the binary: the target is the argument as given
+    // (no splitting at commas or blanks, no trimming, no case folding), by flag and by config file
+    let members: Vec<String> = ["a", "feature1", "a,b", "feature1,feature", ",", "a b", "日本", "A"].iter().map(|s| s.to_string()).collect();
+    for (k, m) in members.iter().enumerate() {
+        let variants: Vec<String> = vec![m.clone(), format!("{m},zz"), format!("zz,{m}"), format!("{m},"), format!("{m} "), m.to_uppercase() + "_", format!("{m},{m}")];
+        for (j, t) in variants.iter().enumerate() {
+            if t.is_empty() {
+                continue;
+            }
+            let want_removed = t == m;
+            let text = format!("a();\n<!-- <removal-marker name=\"{m}\"> -->\nb{k}();\n<!-- </removal-marker> -->\nc();\n");
+            let path = format!("{dir}/mem{k}-{j}.txt");
+            let cfgp = format!("{dir}/mem{k}-{j}.targets");
+            if std::fs::write(&path, &text).is_err() || std::fs::write(&cfgp, format!("{t}\n")).is_err() {
+                ctx.inconclusive("cannot write probe file");
+                return;
+            }
+            for via_file in [false, true] {
+                // a config file line cannot carry a trailing blank / be told from a trimmed one reliably
+                if via_file && t.ends_with(' ') {
+                    continue;
+                }
+                ctx.eval();
+                let args: Vec<String> = if via_file { vec![format!("--removal-marker-target-config={cfgp}")] } else { vec![format!("--removal-marker-target-name={t}")] };
+                let out = Command::new(&bin).arg("--filename").arg(&path).args(&args).output();
+                let rp = json!({"kind": "marker-cli", "text": text, "args": args, "want_removed": want_removed, "target_file": if via_file { Some(format!("{t}\n")) } else { None }});
+                match out {
+                    Err(e) => ctx.inconclusive(&format!("cannot run binary: {e}")),
+                    Ok(o) => {
+                        let so = String::from_utf8_lossy(&o.stdout).to_string();
+                        let ok = if want_removed { nonws(&so) == "a();c();" } else { so == text };
+                        if !o.status.success() {
+                            ctx.violation("cli-membership", format!("binary exited with {:?}: {}", o.status.code(), trunc(&String::from_utf8_lossy(&o.stderr), 200)), rp);
+                        } else if !ok {
+                            ctx.violation(
+                                "cli-membership",
+                                format!("marker named {:?} with target argument {:?} ({}): expected {}, got {:?}", m, t, if via_file { "config file" } else { "flag" }, if want_removed { "removed" } else { "kept" }, trunc(&so, 120)),
+                                rp,
+                            );
+                        } else {
+                            ctx.nontrivial(hash64(&[text.as_bytes(), format!("{args:?}").as_bytes()]));
+                            ctx.count(if want_removed { "cli-membership:removed" } else { "cli-membership:kept" });
+                        }
+                    }
+                }
+            }
+        }
+    }
     let _ = std::fs::remove_dir_all(&dir);
 }
 
@@ -273,7 +321,7 @@ pub fn run(ctx: &mut Ctx) {
                         let mut attrs: Vec<(String, Option<String>)> = vec![("name".into(), Some(name.to_string()))];
                         if with_skip {
                             // a skip attribute is a skip attribute, with or without a value
-                            attrs.push(("skip".into(), if rank % 7 == 3 { Some(String::new()) } else if rank % 7 == 5 { Some("no".into()) } else { None }));
+                            attrs.push(("skip".into(), match rank % 7 { 3 => Some(String::new()), 5 => Some("no".into()), 6 => Some("false".into()), 1 => Some("0".into()), _ => None }));
                         }
                         if let Some(c) = comment {
                             attrs.push(("c".into(), Some(c.to_string())));
@@ -424,9 +472,21 @@ pub fn replay(ctx: &mut Ctx, v: &Value) -> Result<(), String> {
             let path = format!("{dir}/c06-replay.txt");
             std::fs::write(&path, text).map_err(|e| e.to_string())?;
             ctx.eval();
+            let mut args = args;
+            if let Some(tf) = v.get("target_file").and_then(|x| x.as_str()) {
+                let cfgp = format!("{dir}/c06-replay.targets");
+                std::fs::write(&cfgp, tf).map_err(|e| e.to_string())?;
+                args = vec![format!("--removal-marker-target-config={cfgp}")];
+            }
             let o = Command::new(&bin).arg("--filename").arg(&path).args(&args).output().map_err(|e| e.to_string())?;
             let so = String::from_utf8_lossy(&o.stdout).to_string();
-            if so != text {
+            if v.get("want_removed").and_then(|x| x.as_bool()) == Some(true) {
+                if nonws(&so) != "a();c();" {
+                    ctx.violation("replay", format!("targeted marker not removed: {:?}", trunc(&so, 120)), v.clone());
+                } else {
+                    ctx.nontrivial(hash_str(text));
+                }
+            } else if so != text {
                 ctx.violation("replay", format!("marker removed without being targeted: {:?}", trunc(&so, 120)), v.clone());
             } else {
                 ctx.nontrivial(hash_str(text));
